@@ -110,6 +110,11 @@ def generate(tier, seed):
         for i, a in enumerate(u3):
             for b in u3[i:]:
                 yield "self", {"seqs": [a, b], "k": 1 + (len(a) + len(b)) % 4}, True
+    # strings of more than a thousand letters whose neighbours differ near the end, in the middle and at the start
+    base = "".join(random.Random(77 + seed).choice(G.AA) for _ in range(1200))
+    longs = [base, base[:1100] + ("A" if base[1100] != "A" else "C") + base[1101:], base[:1150] + base[1151:], base + "W",
+             base[:600] + base[601:], ("A" if base[0] != "A" else "C") + base[1:], base[:1025], base[:1024] + ("A" if base[1024] != "A" else "C")]
+    yield "self", {"seqs": longs, "k": 1}, True
     yield "big", {"n": 4000, "np_seed": seed + 1, "plant": 300}, True
     if thorough:
         yield "big", {"n": 66000, "np_seed": seed + 2, "plant": 3000}, True
